@@ -338,3 +338,40 @@ Proof.
   assert (A : 400 <= 400) by lia. specialize (H A). assert (B : 400 <= 499) by lia. specialize (H B).
   specialize (H ltac:(discriminate)). vm_compute in H. discriminate H.
 Qed.
+
+(* ---------------------------------------------------------------------------------------------- *)
+(* sequences on one client instance: the observation of an operation is that of the operation alone, whatever ran
+   before or after it; in particular its requests carry exactly its own tag *)
+Lemma run_sequence_nth : forall token pre c post,
+  nth_error (run_sequence token (pre ++ c :: post)) (length pre) = Some (run_op token c).
+Proof.
+  intros token pre c post. unfold run_sequence. rewrite map_app. cbn [map].
+  rewrite nth_error_app2; rewrite map_length; [|apply Nat.le_refl]. rewrite Nat.sub_diag. reflexivity.
+Qed.
+
+Lemma request_tag_exact : forall f token a n rq, headers_ok = true -> build_request f token a n = Some rq ->
+  (rq_etag rq = tag_value f a /\ rq_ifmatch rq = "") \/ (rq_etag rq = "" /\ rq_ifmatch rq = tag_value f a).
+Proof.
+  intros f token a n rq HH HB. destruct (headers_ok_parts HH) as [_ HE].
+  unfold build_request in HB.
+  match type of HB with context [if ?c then None else _] => destruct c; [discriminate|] end.
+  destruct (wire_target (request_target f a n)) as [t|]; [|discriminate].
+  injection HB as <-. cbn [rq_etag rq_ifmatch].
+  first [ left; split; reflexivity | right; split; reflexivity
+        | destruct (header_is etag_header "ETag") eqn:E1, (header_is etag_header "If-Match") eqn:E2;
+          try discriminate HE; auto; destruct (tag_value f a); auto ].
+Qed.
+
+Lemma sequence_requests_independent : headers_ok = true -> forall token pre c post,
+  nth_error (run_sequence token (pre ++ c :: post)) (length pre)
+    = Some (run_call_env (oc_fact c) token (oc_args c) (oc_nums c) (oc_env c))
+  /\ forall r, In r (co_requests (run_call_env (oc_fact c) token (oc_args c) (oc_nums c) (oc_env c))) ->
+       (rq_etag r = tag_value (oc_fact c) (oc_args c) /\ rq_ifmatch r = "")
+       \/ (rq_etag r = "" /\ rq_ifmatch r = tag_value (oc_fact c) (oc_args c)).
+Proof.
+  intros HH token pre c post. split; [exact (run_sequence_nth token pre c post)|].
+  intros r Hr.
+  destruct (run_call_cases (oc_fact c) token (oc_args c) (oc_nums c) (oc_env c)) as [[x Hx]|[rq [HL HB]]];
+    [rewrite Hx in Hr; destruct Hr|].
+  rewrite (requests_all_equal _ _ _ _ _ _ HL HB r Hr). exact (request_tag_exact _ _ _ _ _ HH HB).
+Qed.
